@@ -22,6 +22,9 @@ MODES = {
     "soft": {"up": cfgs.RESTART_MODES["soft"]},
     "hard_old": {"up": cfgs.RESTART_MODES["hard_old"]},
     "hard_new": {"up": cfgs.RESTART_MODES["hard_new"]},
+    # without memoisation: a hard restart with use_old_rk=False evaluates the incumbent AGAIN, and that evaluation can be the bad
+    # one (with memoisation a repeated x gets its first answer and is no choice point)
+    "hard_new_nomemo": {"up": cfgs.RESTART_MODES["hard_new"], "memo": False},
     "avg2": {"nsamples": "const2", "memo": False, "noise_amp": 0.02},
     "regression": {"npt": 5},
     "growing": {"up": {"growing.ndirs_initial": 1}},
@@ -61,6 +64,15 @@ def _configs(tier, salts):
                     for L in FAULTS:
                         c2 = dict(cfg, all_letter=L)
                         out.append((c2, {"depth": 0}))
+    # a fault at the LAST evaluation the budget allows, for every budget (wave j: a NaN at the re-evaluation of x0 that opens a
+    # hard-restarted run, when that evaluation is also the last one, replaced the finite incumbent of the earlier runs)
+    for salt in salts[:1] if tier == "quick" else salts[:2]:
+        for mode in ("plain", "bounds", "soft", "hard_old", "hard_new", "hard_new_nomemo", "avg2", "regression", "growing"):
+            for prob in ("rosen", "nzr"):
+                for B in range(1, 49 if mode.startswith("hard") or tier == "thorough" else 25):
+                    cfg = _mk(prob, mode, salt, maxfun=B)
+                    cfg["tag_mode"] = mode + "/budget_end"
+                    out.append((cfg, {"depth": 1, "letters": ["nan", "nan1", "inf", "1e200", "raise"], "only_last": True}))
     # the broad option bank: every evaluation index x three fault kinds (all kinds in thorough)
     for salt in salts:
         if salt != 0 and (tier == "quick" or salt > 1):
